@@ -96,6 +96,20 @@ fn prepare(p: &Path, pre: &Value) -> Result<(), String> {
 		let _ = std::fs::remove_file(p);
 		return Ok(());
 	}
+	// links (C13): `p` is a symbolic link to / a hard link of a sibling in the same directory, the
+	// sibling itself being absent or a regular file prepared as usual
+	if let Some(rel) = pre["symlink_to"].as_str() {
+		let _ = std::fs::remove_file(p);
+		prepare(&p.with_file_name(rel), &pre["target"])?;
+		return std::os::unix::fs::symlink(rel, p).map_err(|e| format!("prepare symlink: {e}"));
+	}
+	if let Some(rel) = pre["hardlink_of"].as_str() {
+		let mut plain = pre.clone();
+		plain.as_object_mut().map(|o| o.remove("hardlink_of"));
+		prepare(&p.with_file_name(rel), &plain)?;
+		let _ = std::fs::remove_file(p);
+		return std::fs::hard_link(p.with_file_name(rel), p).map_err(|e| format!("prepare link: {e}"));
+	}
 	let data = unhex(pre["content_hex"].as_str().unwrap_or(""));
 	let _ = std::fs::remove_file(p);
 	std::fs::write(p, &data).map_err(|e| format!("prepare write: {e}"))?;
@@ -241,6 +255,13 @@ async fn one_step(root: &Path, idx: usize, step: &Value) -> Value {
 	}
 	let before = stat_of(&path);
 	let before_content = content_of(&path);
+	// the file a link leads to (C13): the symlink's target / the hard link's sibling, `stat`ed before
+	// and after the call
+	let other: Option<PathBuf> = step["pre"]["symlink_to"]
+		.as_str()
+		.or(step["pre"]["hardlink_of"].as_str())
+		.map(|rel| path.with_file_name(rel));
+	let link_before = other.as_ref().map(|t| (stat_of(t), content_of(t)));
 	// I/O fault: the file may not grow beyond `fsize_limit` bytes during this call (RLIMIT_FSIZE with
 	// SIGXFSZ ignored: open/truncate succeed, the write is short or refused with EFBIG)
 	let _fsize = step["fsize_limit"].as_u64().map(FsizeGuard::set);
@@ -258,7 +279,21 @@ async fn one_step(root: &Path, idx: usize, step: &Value) -> Value {
 	// read back at once: the call has returned, the bytes must be there
 	let after = stat_of(&path);
 	let content = content_of(&path);
+	let link = match (&other, link_before) {
+		(Some(t), Some((b, bc))) => json!({
+			"path": t.display().to_string(),
+			"before": b, "before_content_hex": bc,
+			"after": stat_of(t), "content_hex": content_of(t),
+			"readlink_after": std::fs::read_link(&path).ok().map(|l| l.display().to_string()),
+			"same_inode_after": match (std::fs::metadata(&path), std::fs::metadata(t)) {
+				(Ok(a), Ok(b)) => json!(a.ino() == b.ino() && a.dev() == b.dev()),
+				_ => Value::Null,
+			},
+		}),
+		_ => Value::Null,
+	};
 	json!({
+		"link": link,
 		"path": path.display().to_string(),
 		"file_name": file_name,
 		"file_directory": dir,
